@@ -152,7 +152,7 @@ def sub_steps(step):
     return None, []
 
 
-def check_plan(plan, stmt_class, exempt_sink=False):
+def check_plan(plan, stmt_class, exempt_sink=False, needed_tables=()):
     """-> (violations [(kind, site, detail)], info {'edges', 'features'})"""
     from mindsdb_sql.planner.steps import PlanStep
     from mindsdb_sql.planner.step_result import Result
@@ -253,6 +253,19 @@ def check_plan(plan, stmt_class, exempt_sink=False):
                 reach.add(m)
                 stack.append(m)
     dangling = [i for i in range(n - 1) if i not in reach]
+    if needed_tables:
+        # the last step is the answer: every table the statement reads (directly or through the CTEs it uses -- a
+        #  WITH statement may leave the body of an unused CTE unread) is mentioned by the last step or a step feeding it
+        mentioned = set()
+        for v in walk([vars(steps[i]) for i in sorted(reach)]):
+            if type(v).__name__ == 'Identifier':
+                mentioned.update(str(p_).lower() for p_ in v.parts if isinstance(p_, str))
+        missing = sorted(t for t in needed_tables if t not in mentioned)
+        if missing:
+            viol.append(('last-step-not-the-answer', f'{type(steps[-1]).__name__}',
+                         f'the main query reads {missing}, which no step feeding the last step {n - 1} '
+                         f'({type(steps[-1]).__name__}) mentions; unread steps {dangling}; '
+                         f'sequence {[type(s).__name__ for s in steps]}'))
     if dangling and not exempt_sink:
         viol.append(('dangling-step', f'{type(steps[dangling[0]]).__name__}->{type(steps[-1]).__name__}',
                      f'steps {dangling} do not feed the last step {n - 1} ({type(steps[-1]).__name__}); '
@@ -278,6 +291,52 @@ def check_plan(plan, stmt_class, exempt_sink=False):
             feats.add('ref:parameter')
             break
     return viol, {'features': sorted(feats), 'edges': edges}
+
+
+def main_query_tables(tree):
+    """lower-cased last name parts of the tables the statement reads outside its WITH clauses, plus those of the CTE
+    bodies it uses (transitively); CTE bodies nobody uses do not count"""
+    from vf.oracles.struct import _is_node
+    bodies = {}
+    for n in walk(tree):
+        if type(n).__name__ == 'CommonTableExpression':
+            bodies.setdefault(str(n.name.parts[-1]), n.query)
+    fields = {'Select': ('from_table',), 'Join': ('left', 'right'), 'Insert': ('table',), 'Update': ('table',),
+              'Delete': ('table',)}
+    out, used, todo, seen = set(), set(), [tree], set()
+
+    def go(o):
+        if id(o) in seen:
+            return
+        if isinstance(o, (list, tuple, set, frozenset)):
+            seen.add(id(o))
+            for x in o:
+                go(x)
+        elif isinstance(o, dict):
+            seen.add(id(o))
+            for x in o.values():
+                go(x)
+        elif _is_node(o):
+            seen.add(id(o))
+            cn = type(o).__name__
+            if cn == 'CommonTableExpression':
+                return                      # visited only when the name is used
+            for f in fields.get(cn, ()):
+                v = getattr(o, f, None)
+                if type(v).__name__ == 'Identifier' and all(isinstance(p_, str) for p_ in v.parts):
+                    name = str(v.parts[-1])
+                    if len(v.parts) == 1 and name in bodies:
+                        if name not in used:
+                            used.add(name)
+                            todo.append(bodies[name])
+                    else:
+                        out.add(name.lower())
+            for v in vars(o).values():
+                go(v)
+
+    while todo:
+        go(todo.pop())
+    return sorted(out)
 
 
 def has_cte(tree):
@@ -339,6 +398,8 @@ def tree_features(tree, kw):
                 feats.add('join:ts-model-left-of-subselect')
             if sorted(sq) == ['D', 'X']:
                 feats.add('join:ts-model-with-injected-data')
+            if 'X' in sq and len(sq) > 1 and any(type(m).__name__ == 'Select' for m in walk(list(n.targets or []))):
+                feats.add('join:ts-model-with-target-subselect')
         if getattr(n, 'cte', None):
             feats.add('has:cte')
             for m in walk([n.cte, n.targets, n.from_table, n.where]):
@@ -379,6 +440,7 @@ def judge(case, col):
         classes.append('injected-data')
     cf = case_features(tree, kw, stmt)
     cte = has_cte(tree)
+    needed = main_query_tables(tree)      # before planning: the planner rewrites the tree
     key = (json.dumps(kw, sort_keys=True), sql)
     try:
         plan = plan_query(tree, **copy.deepcopy(kw))
@@ -391,7 +453,7 @@ def judge(case, col):
         col.case(key, True, classes)
         return [findings.record('internal-error', site_of(e), cf, cfg, f'{type(e).__name__}: {str(e)[:300]}', sql)]
     exempt = cte
-    viol, info = check_plan(plan, stmt, exempt_sink=exempt)
+    viol, info = check_plan(plan, stmt, exempt_sink=exempt, needed_tables=needed)
     pf = info['features']
     nsteps = len(plan.steps)
     classes += ['planned'] + ['plan:' + f for f in pf]
